@@ -330,6 +330,11 @@ def oracle(ctx, budget):
                 nB = 2 * n - nA
                 for k in range(nA % 2, nA + 1, 2):
                     lh.append((n, nA, nB, k))
+    # (n, nA) points for the mean nA*nB/(2n-1), including biobank-scale sample counts (the intermediate product is large there)
+    means = [(n, nA) for n in (1, 2, 3, 7) for nA in range(0, 2 * n + 1)]
+    while len(means) < ctx.scale(150, 1000) * budget:
+        n = rng.choice([rng.randrange(1, 100), rng.randrange(100, 100000), rng.randrange(30000, 1000000)])
+        means.append((n, rng.choice([rng.randrange(0, 2 * n + 1), n, n - 1, 2 * n, max(0, n // 2)])))
     exprs = []
     for t in tables:
         a, b, c, d = t
@@ -342,6 +347,8 @@ def oracle(ctx, budget):
     for n, nA, nB, k in lh:
         exprs.append(f'(match pRU_next_val {n} {nA} {nB} {k} 1%Q with Some x => Some (({QPAIR}) x) | None => None end, '
                      f'match pLU_next_val {n} {nA} {nB} {k} 1%Q with Some x => Some (({QPAIR}) x) | None => None end, lh_mode {n} {nA} {nB} {nA % 2})')
+    for n, nA in means:
+        exprs.append(f'match numericalMean {n} {nA} {2 * n - nA} with Some x => Some (({QPAIR}) x) | None => None end')
     try:
         mv = coq_eval(ctx, HEADER.replace(' Stats.Pipeline', ''), exprs, shard=200, label='oracle')
     except Exception as ex:  # noqa: BLE001 - generated file missing when the translator failed closed
@@ -399,7 +406,14 @@ def oracle(ctx, budget):
             if mode not in ws or ws[mode] != max(ws.values()):
                 fails.append(Failure('engine-model:lh-mode', f'MODEL of the mode formula (not executed): n={n}, nA={nA} gives mode {mode}, which is not a most probable outcome',
                                      case, max(ws, key=ws.get), mode))
-    stats = {'evaluations': len(exprs), 'distinct_nontrivial': len(set(tables)) + len(set(hw)) + len(set(lh)),
+    for n, nA in means:
+        m = some(mv[pos]); pos += 1
+        exp_m = Fraction(nA * (2 * n - nA), 2 * n - 1)
+        if m is None or Fraction(m[0], m[1]) != exp_m:
+            fails.append(Failure('engine-model:lh-mean', f'MODEL of LeveneHaldane.getNumericalMean (regenerated from the Scala text with its Int/Double typing, not '
+                                 f'executed): n={n}, nA={nA}, nB={2 * n - nA} gives {m}, the mean nA*nB/(2n-1) is {exp_m} (het_freq_hwe = mean / n)',
+                                 {'kind': 'mean', 'n': n, 'nA': nA, 'nB': 2 * n - nA}, str(exp_m), m))
+    stats = {'evaluations': len(exprs), 'distinct_nontrivial': len(set(tables)) + len(set(hw)) + len(set(lh)) + len(set(means)),
              'rule': 'NO executable implementation exists here (Scala only): generated definitions (vm_compute) vs exact references computed with Python '
                      'fractions on small-scope + seeded random 2x2 tables, genotype-count triples and (n, nA, nAB) points; non-trivial = distinct inputs'}
     return fails, stats
@@ -419,6 +433,10 @@ def replay(ctx, doc):
         elif case.get('kind') == 'lh':
             n, nA, nB, k = case['n'], case['nA'], case['nB'], case['nAB']
             out['model'] = coq_eval(ctx, HEADER, [f'(match pRU_next_val {n} {nA} {nB} {k} 1%Q with Some x => Some (({QPAIR}) x) | None => None end, lh_mode {n} {nA} {nB} {nA % 2})'])[0]
+        elif case.get('kind') == 'mean':
+            n, nA, nB = case['n'], case['nA'], case['nB']
+            out['model'] = coq_eval(ctx, HEADER, [f'match numericalMean {n} {nA} {nB} with Some x => Some (({QPAIR}) x) | None => None end'])[0]
+            out['expected'] = str(Fraction(nA * nB, 2 * n - 1))
         elif case.get('kind') == 'recorded':
             out['note'] += '; recorded example: re-run the check to compare'
     except Exception as ex:  # noqa: BLE001
